@@ -419,8 +419,8 @@ struct Digit {
                         return QNumberType::Real;
                     }
 
-                    if (number.Natural <= 0x7FFFFFFFFFFFFFFFULL) {
-                        number.Integer = -number.Integer;
+                    if (number.Natural <= 0x8000000000000000ULL) {
+                        number.Natural = (SizeT64{0} - number.Natural);
                         return QNumberType::Integer;
                     }
                 }
@@ -525,6 +525,16 @@ struct Digit {
                         powerOfNegativeTen(number.Natural, exponent);
                     } else {
                         powerOfPositiveTen(number.Natural, exponent);
+                    }
+                } else if ((offset < end_offset) &&
+                           ((content[offset] == DigitUtils::DigitChar::E) || (content[offset] == DigitUtils::DigitChar::UE))) {
+                    // Zero mantissa (0e5, 0.0E-3): the exponent does not change the value, but it is part of the numeral.
+                    SizeT32 exponent        = 0;
+                    bool    is_negative_exp = false;
+                    ++offset;
+
+                    if (!parseExponent(content, exponent, is_negative_exp, offset, end_offset)) {
+                        return QNumberType::NotANumber;
                     }
                 }
                 ///////////////////////////////////////
